@@ -971,3 +971,151 @@ def canonical(ctx):
         and tail[2][1] != '0' and tail[2][0][0] == 'eq' and {assume_nonneg(vec_norm(an, tail[2][0][1])), assume_nonneg(vec_norm(an, tail[2][0][2]))} == {A, B}
     ctx.check(ok_shape, R, 'final merge', 'after the update loop the point it stopped at is removed exactly when it has a left neighbour carrying the same speed',
               'the removal after the loop is decided by %s' % ([(show(vec_norm(an, c), an.names)[:120], o) for c, o in tail],), w)
+
+
+# ------------------------------------------------------------------------------------------------ sortedness (C13-10)
+def _order_lt(a, b, facts):
+    """does the conjunction of comparison facts entail a < b?  (closure of <=, <, =, != over the terms as opaque atoms)"""
+    INF_ = 10 ** 6
+    idx = {}
+    def node(t):
+        if t not in idx:
+            idx[t] = len(idx)
+        return idx[t]
+    edges = []       # (u, v, strict): u <= v or u < v
+    nes = set()
+    def add(op, u, v):
+        u, v = node(u), node(v)
+        if op == 'lt': edges.append((u, v, True))
+        elif op == 'le': edges.append((u, v, False))
+        elif op == 'gt': edges.append((v, u, True))
+        elif op == 'ge': edges.append((v, u, False))
+        elif op == 'eq': edges.append((u, v, False)); edges.append((v, u, False))
+        elif op == 'ne': nes.add((u, v)); nes.add((v, u))
+    NEG = {'lt': 'ge', 'le': 'gt', 'gt': 'le', 'ge': 'lt', 'eq': 'ne', 'ne': 'eq'}
+    for f in facts:
+        pos = True
+        while f[0] == 'not':
+            f = f[1]; pos = not pos
+        if f[0] in NEG and len(f) == 3:
+            add(f[0] if pos else NEG[f[0]], f[1], f[2])
+    na, nb = node(a), node(b)
+    n = len(idx)
+    # best[u][v]: 0 = unknown, 1 = u <= v, 2 = u < v
+    best = [[0] * n for _ in range(n)]
+    for i in range(n):
+        best[i][i] = 1
+    for u, v, s_ in edges:
+        best[u][v] = max(best[u][v], 2 if s_ else 1)
+    for _round in range(4):
+        for k in range(n):
+            bk = best[k]
+            for i in range(n):
+                bik = best[i][k]
+                if not bik:
+                    continue
+                bi = best[i]
+                for j in range(n):
+                    if bk[j]:
+                        c = 2 if (bik == 2 or bk[j] == 2) else 1
+                        if c > bi[j]:
+                            bi[j] = c
+        changed = False
+        for u, v in nes:
+            if best[u][v] == 1:
+                best[u][v] = 2; changed = True
+        if not changed:
+            break
+    return best[na][nb] == 2
+
+
+def sortedness(ctx):
+    """C13-10.sorted: the stored profile stays strictly sorted by offset.  For each statement of insert_speed that adds a point or
+    moves one, the new offset lies strictly between its neighbours', from the statement's path condition, the strict
+    sortedness of the profile on entry (instances for adjacent indices) and start <= end of a validated restriction.
+    The left neighbour of the point inserted at offset_start and the right neighbour of the restore point are the two
+    positions the index searches stop at; that they bracket the restriction follows from the search clauses (C13-5: single exit
+    test, unit step from the first / last point) and is not re-derived here."""
+    R = 'C13-10.sorted'
+    b, an = analysis(ctx)
+    if b is None or an is None or an.exit_state is None:
+        ctx.unproved(R, 'insert_speed', 'InsertSpeed::insert_speed not found / not analysable'); return
+    S = sites(ctx, b, an)
+    st, en = SL('offset_start'), SL('offset_end')
+    seen = {}
+    n = 0
+    LAST = mk('sub', ('len', ('pre', SELF)), ONE)
+
+    def sorted_instances(terms):
+        """pre[k].offset < pre[k+1].offset for every pair of index terms occurring in `terms` that differ by one"""
+        ks = set()
+        for t in terms:
+            for x in walk(t):
+                if x[0] == 'pre' and len(x[1]) == len(SELF) + 2 and x[1][:len(SELF)] == SELF and x[1][-1] == ('f', 'offset') and x[1][-2][0] == 'idx':
+                    ks.add(simp_idx(x[1][-2][1]))
+        out = []
+        ks = list(ks)
+        # also the predecessor of every index that occurs (so that chains through an unseen neighbour can be built)
+        for k in list(ks):
+            ks.append(simp_idx(mk('sub', k, ONE)))
+        ks = list(dict.fromkeys(ks))
+        for k1 in ks:
+            for k2 in ks:
+                if simp_idx(mk('add', k1, ONE)) == k2:
+                    out.append(mk('lt', elem_offset_raw(('pre', SELF), k1), elem_offset_raw(('pre', SELF), k2)))
+        return out
+
+    def decide(key, lo, hi, pc, note, w):
+        """lo < hi ?"""
+        nonlocal n
+        c_ = seen.get(key, 0); seen[key] = c_ + 1
+        if c_:
+            key = '%s #%d' % (key, c_ + 1)
+        n += 1
+        lo_n, hi_n = vec_norm(an, lo), vec_norm(an, hi)
+        facts = facts_of(an, pc) + [mk('le', st, en)]
+        ok_all = True
+        worst = None
+        cs_ = cases(an, mk('sub', hi_n, lo_n), ZERO, facts, max_conds=3)
+        if not cs_:
+            ctx.unproved(R, key, '%s :: every case contradicts the path condition (nothing to decide on)' % note, w); return
+        for label, g2, w2, f2 in cs_:
+            # g2 = hi - lo after the case split; recover both sides
+            if g2[0] == 'sub' and len(g2) == 3:
+                hi2, lo2 = g2[1], g2[2]
+            else:
+                hi2, lo2 = vec_norm(an, hi), vec_norm(an, lo)
+            f3 = [vec_norm(an, x) for x in f2]
+            f3 += sorted_instances([hi2, lo2] + f3)
+            if not _order_lt(lo2, hi2, f3):
+                ok_all = False
+                worst = (label, lo2, hi2)
+                break
+        txt = '%s :: %s < %s' % (note, show(lo_n, an.names)[:120], show(hi_n, an.names)[:120])
+        if ok_all:
+            ctx.ok(R, key, txt + ' :: entailed by the path condition, sortedness on entry and start <= end', w)
+        else:
+            ctx.unproved(R, key, txt + ' :: not entailed%s' % ((' in the case [%s]: %s < %s' % (worst[0], show(worst[1], an.names)[:100], show(worst[2], an.names)[:100])) if worst else ''), w)
+
+    for s in S:
+        w = ctx.where(b, s.span)
+        cur = s.cur
+        if s.kind == 'push':
+            o = fields(s.point).get('offset')
+            decide('push at %s|after the last point' % ('offset_start' if o == st else 'offset_end'),
+                   elem_offset(an, cur, mk('sub', ('len', cur), ONE)), o, s.pc, 'the pushed point lies strictly after the last point', w)
+        elif s.kind == 'insert':
+            o = fields(s.point).get('offset')
+            nm = 'offset_start' if o == st else 'offset_end'
+            if o == st:
+                decide('insert at %s|before its right neighbour' % nm, o, elem_offset(an, cur, s.k), s.pc,
+                       'the inserted point lies strictly before the point it is inserted in front of', w)
+                ctx.info(R, 'insert at %s|after its left neighbour' % nm, 'left neighbour = the point before the one the idx_start search stopped at: follows from C13-5 (not re-derived)', w)
+            else:
+                decide('insert at %s|after its left neighbour' % nm, elem_offset(an, cur, mk('sub', s.k, ONE)), o, s.pc,
+                       'the restore point lies strictly after the point it is inserted behind', w)
+                ctx.info(R, 'insert at %s|before its right neighbour' % nm, 'right neighbour = the point after the one the idx_end search stopped at: follows from C13-5 (not re-derived)', w)
+        elif s.kind == 'store_offset':
+            decide('offset of point %s|after its left neighbour' % _idx_name(an, s.k), elem_offset(an, cur, mk('sub', s.k, ONE)), s.val, s.pc,
+                   'the moved point stays strictly after its left neighbour (it is the last point: C13-1 target clause)', w)
+    ctx.floor('ordering obligations of insert_speed', n, 6)
